@@ -63,8 +63,36 @@ macro_rules! cat {
 }
 cat! {
 	c14q_cat_scalars: u8, u32, bool, 0, 8, 7; c14q_cat_compact: Compact<u32>, Compact<u64>, u8, 0, 20, 19; c14q_cat_opt: Option<u16>, Result<u8, bool>, OptionBool, 0, 8, 7;
-	c14q_cat_vec: Vec<u8>, u16, Vec<bool>, 2, 12, 8; c14t_cat_vecs: Vec<u8>, Compact<u16>, Vec<u16>, 2, 20, 19;
+	c14q_cat_vec: Vec<u8>, u16, Vec<bool>, 2, 12, 8;
 	c14t_cat_arr: [u16; 2], [bool; 2], [Option<u8>; 1], 0, 12, 8;
+}
+
+/// elements that are zero-sized in memory but one byte on the wire: prefixes of an array of them fail, decode_all is exact
+#[cfg(feature = "ext")]
+pub mod zst_with_encoding {
+	use super::*;
+	#[derive(Encode, Decode, Clone, Copy)]
+	pub enum OneV { #[codec(index = 5)] Only }
+	#[kani::proof]
+	#[kani::unwind(8)]
+	pub fn c14q_array_of_zero_sized_elems_with_encoding() {
+		let a = [OneV::Only; 3];
+		let mut b = Buf::<8>::new(); a.encode_to(&mut b);
+		assert!(b.n == 3);
+		let k: usize = kani::any();
+		kani::assume(k < 3);
+		assert!(<[OneV; 3]>::decode(&mut &b.d[..k]).is_err(), "a strict prefix of an array encoding decoded successfully");
+		assert!(<[OneV; 3]>::decode_all(&mut &b.d[..3]).is_ok(), "decode_all rejected an exact array encoding");
+		assert!(<[OneV; 3]>::decode_all(&mut &b.d[..4]).is_err(), "decode_all accepted trailing bytes");
+		let junk: u8 = kani::any();
+		let bad = [5u8, junk, 5u8];
+		assert!(<[OneV; 3]>::decode(&mut &bad[..]).is_ok() == (junk == 5), "an invalid element byte inside the array was accepted");
+		let cat = [5u8, 5u8, 0xab];
+		let mut inp = &cat[..];
+		let r = <[OneV; 2]>::decode(&mut inp);
+		assert!(r.is_ok() && u8::decode(&mut inp) == Ok(0xab) && inp.is_empty(), "value after an array of zero-sized elements decoded from the wrong offset");
+		assert!(Box::<[OneV; 2]>::decode_all(&mut &cat[..2]).is_ok());
+	}
 }
 
 /// negative twin: "a prefix of length n-0 fails" (i.e. the full encoding) must FAIL
